@@ -507,13 +507,51 @@ def check_function_names(repo, rep):
            detail + (": a formula that calls such a function is shown with another function's name" if changed else ""), key="C08.R4@function-map")
 
 
+def _fold_table(repo, rel, node, depth=0):
+    """A table written as a dict display, possibly merged from smaller ones: ``{**A, **B, "k": v}``, ``A | B``, ``dict(A, **B)``,
+    ``dict.fromkeys(<names>, v)``, a name bound at module level to one of these.  Later entries win, as in Python."""
+    if depth > 5:
+        raise AnalysisError("table nested too deeply")
+    if isinstance(node, ast.Name):
+        return _fold_table(repo, rel, repo.module_assign(rel, node.id), depth + 1)
+    if isinstance(node, ast.Dict):
+        out = {}
+        for k, v in zip(node.keys, node.values):
+            if k is None:
+                out.update(_fold_table(repo, rel, v, depth + 1))
+            else:
+                out[try_const(k)] = try_const(v)
+        return out
+    if isinstance(node, ast.BinOp) and isinstance(node.op, ast.BitOr):
+        out = dict(_fold_table(repo, rel, node.left, depth + 1))
+        out.update(_fold_table(repo, rel, node.right, depth + 1))
+        return out
+    if isinstance(node, ast.Call) and U(node.func) == "dict.fromkeys" and 1 <= len(node.args) <= 2 and not node.keywords:
+        keys = node.args[0]
+        if isinstance(keys, ast.Name):
+            keys = repo.module_assign(rel, keys.id)
+        kv = try_const(keys)
+        if isinstance(kv, (tuple, list, str)):
+            val = try_const(node.args[1]) if len(node.args) == 2 else None
+            return {k: val for k in kv}
+    if isinstance(node, ast.Call) and U(node.func) == "dict" and len(node.args) <= 1:
+        out = dict(_fold_table(repo, rel, node.args[0], depth + 1)) if node.args else {}
+        for kw in node.keywords:
+            if kw.arg is None:
+                out.update(_fold_table(repo, rel, kw.value, depth + 1))
+            else:
+                out[kw.arg] = try_const(kw.value)
+        return out
+    raise AnalysisError(f"table expression `{U(node)[:60]}` is outside the folded language")
+
+
 def run(repo, rep, tier):
     check_function_names(repo, rep)
     tree = repo.tree("formula.py")
     nfm_node = repo.module_assign("formula.py", "NODE_FUNCTION_MAP")
     nfm = try_const(nfm_node)
     if not isinstance(nfm, dict):
-        nfm = {try_const(k): try_const(v) for k, v in zip(nfm_node.keys, nfm_node.values)}
+        nfm = _fold_table(repo, "formula.py", nfm_node)
     infix_node = repo.module_assign("formula.py", "OPERATOR_INFIX_MAP")
     infix = {try_const(k): try_const(v) for k, v in zip(infix_node.keys, infix_node.values)}
     opmap_node = repo.module_assign("formula.py", "OPERATOR_MAP")
@@ -564,11 +602,21 @@ def run(repo, rep, tier):
         if isinstance(fn, ast.Call) and call_name(fn) == "getattr" and len(fn.args) == 2 and U(fn.args[0]) == "formula":
             ok_call = True
             key = _res(fn.args[1])
-            ok_get = U(key).replace(" ", "") == "NODE_FUNCTION_MAP[node_type]"
+            kt_ = U(key).replace(" ", "")
+            # the table entry of the node's own type: subscript, or .get(node_type[, default]) (the default only marks "no entry")
+            ok_get = kt_ == "NODE_FUNCTION_MAP[node_type]" or (isinstance(key, ast.Call) and U(key.func) == "NODE_FUNCTION_MAP.get" and 1 <= len(key.args) <= 2
+                                                              and U(key.args[0]) == "node_type" and not key.keywords)
     rep.ob("C08.R1", tf, "handler invoked as func(row, col, node)", ok_call, "", key="C08.R1@formula:callorder")
     rep.ob("C08.R1", tf, "handler looked up by the node's own type", ok_get, "", key="C08.R1@formula:getattr")
     loops = [n for n in body_walk(tf) if isinstance(n, ast.For)]
-    ok_loop = any("all_formulas[formula_key]" in U(l.iter) and not isinstance(l.iter, ast.Call) for l in loops)
+    def _stored_nodes(it):
+        it = _res(it)
+        t_ = U(it).replace(" ", "")
+        if isinstance(it, ast.Call) and isinstance(it.func, ast.Attribute) and it.func.attr == "get" and len(it.args) == 1 and U(it.args[0]) == "formula_key":
+            base_ = _res(it.func.value)
+            return "formula_ast(self._table_id)" in U(base_) or U(it.func.value) == "all_formulas"
+        return "all_formulas[formula_key]" in t_ and not isinstance(it, ast.Call)
+    ok_loop = any(_stored_nodes(l.iter) for l in loops)
     rep.ob("C08.R1", tf, "nodes visited in stored (post-fix) order", ok_loop,
            "" if ok_loop else "the node array is not iterated directly in order", key="C08.R1@formula:order")
     ret = [n for n in body_walk(tf) if isinstance(n, ast.Return) and n.value is not None]
